@@ -8,7 +8,7 @@ PID = "C01"
 LEAN_MODULES = ["Astm.Proofs.C01"]
 THEOREMS = [
     "Astm.C01.validate_iff_checksum_ok", "Astm.C01.ack_iff_checksum_ok", "Astm.C01.nak_no_effect",
-    "Astm.C01.delivered_from_acked", "Astm.C01.example_frames",
+    "Astm.C01.delivered_from_acked", "Astm.C01.damaged_frame_is_transparent", "Astm.C01.example_frames",
     "Astm.validB_iff", "Astm.join_valid", "Astm.step_refines",
 ]
 RULE = ("sessions built from message texts and split points (1-4 frames per message, 1-3 messages); every frame is "
